@@ -1403,7 +1403,7 @@ def main(tier):
     aslr = open("/proc/sys/kernel/randomize_va_space").read().strip() if os.path.exists("/proc/sys/kernel/randomize_va_space") else "?"
     tb = ["Coq 8.16.1 kernel", "axioms under Print Assumptions: " + (", ".join(sorted(axioms)) or "none (Closed under the global context)"),
           "extraction: ExtrOcamlBasic only; OCaml 4.13.1; ocaml/drv_c12.ml, ocaml/drv_c12p.ml (AST readers), ocaml/drv_c12o.ml, ocaml/drv_c12d.ml",
-          "checks/c12_dir.py: stale-state generator, directory snapshots (kind, bytes, inode), the expected-tree oracle, the classifier of C12-inplace-file-through-symlink",
+          "checks/c12_dir.py: stale-state generator, directory snapshots (kind, bytes, inode), the expected-tree oracle",
           "checks/c12.py + checks/c12_gen.py: generator, renderer, yacc_norm (the constraint-tree shape yacc builds), file comparison, finding classifiers",
           "asn1c built by vlib.build_asn1c() from the working tree; kernel.randomize_va_space=" + aslr,
           "valgrind " + ("3.19 memcheck (--error-exitcode, leak check off)" if VALGRIND else "NOT AVAILABLE: uninitialised-read oracle skipped") + "; setarch -R " + ("available" if SETARCH else "not available"),
